@@ -667,6 +667,8 @@ def delete_errors_propagate(ctx):
         if rt["k"] != "call" or rt.get("dest") is None:
             continue
         n += 1
+        ctx.check(rbb in raw.reachable_blocks(), f"{short(ctx.r.outer_fn(raw).name)}/removal-reachable", [site(raw, rbb)],
+                  "the removal of the state file is dead code: the old record is never discarded")
         fl = raw.prov.flows_forward(rt["dest"]["local"])
         ctx.check(0 in fl, f"{short(ctx.r.outer_fn(raw).name)}/removal-result-returned", [site(raw, rbb)],
                   "the result of removing the state file never reaches the delete function's result: when the removal fails the script still runs with the old record in place")
